@@ -446,6 +446,40 @@ Definition run_cv_run (arg : val) : val :=
   | _ => bad_input
   end.
 
+(* dg_run: (header, rows, ops) *)
+Definition run_dg_run (arg : val) : val :=
+  match arg with
+  | VSeq _ [hdr; rows; ops] =>
+      match dec_row hdr, dec_table rows, dec_sops ops with
+      | Some h, Some r, Some ops' =>
+          let '(_, _, tr) := Machines.mrun dg_machine ops' (dg_init h r) [] [] in enc_trace tr
+      | _, _, _ => bad_input
+      end
+  | _ => bad_input
+  end.
+
+Definition dec_out (v : val) : option out :=
+  match v with
+  | VSeq _ [VStr tag; VSeq _ r] => if zs_eqb tag "r" then Some (ORow r) else if zs_eqb tag "e" then Some (ORaise OtherErr) else None
+  | VSeq _ [VStr tag] => if zs_eqb tag "s" then Some OStop else if zs_eqb tag "e" then Some (ORaise OtherErr) else None
+  | _ => None
+  end.
+
+(* stateless_run: (solo outputs, ops): every iterator is a private cursor into the solo pass *)
+Definition run_stateless_run (arg : val) : val :=
+  match arg with
+  | VSeq _ [VSeq _ outs; ops] =>
+      match dec_all dec_out outs, dec_sops ops with
+      | Some os, Some ops' =>
+          let '(_, _, tr) := Machines.mrun (stateless_machine os) ops' tt [] [] in
+          vlist (map (fun p => vtuple [vnat (fst p); match snd p with
+                                                      | ORaise _ => vtuple [vstr "e"]
+                                                      | o => enc_out o end]) tr)
+      | _, _ => bad_input
+      end
+  | _ => bad_input
+  end.
+
 (* sv_history: (key|None, reverse, bs|None, cache, table, hops)  hop = (0, table) edit | (1,) pass *)
 Definition dec_hop (v : val) : option hop :=
   match v with
@@ -494,4 +528,6 @@ Definition run (op : list Z) (arg : val) : val :=
   else if zs_eqb op "sv_run" then run_sv_run arg
   else if zs_eqb op "cv_run" then run_cv_run arg
   else if zs_eqb op "sv_history" then run_sv_history arg
+  else if zs_eqb op "dg_run" then run_dg_run arg
+  else if zs_eqb op "stateless_run" then run_stateless_run arg
   else vtuple [vstr "!unknown-op"].
